@@ -287,6 +287,17 @@ def check_repair(mols, specs, system, b):
         by_res = {}
         for n, d in mol.nodes(data=True):
             by_res.setdefault((d.get('chain'), d.get('resid'), d.get('insertion_code')), []).append(d)
+        # residues that no request names carry no request marks after repair either (marks must not travel through the
+        # force field's reference blocks, which all residues of a type share)
+        named = {(rchain(mols[mi], mols[mi]['res'][ri]), mols[mi]['res'][ri]['resid'], mols[mi]['res'][ri]['icode'])
+                 for (mmi, ri) in marks if mmi == mi}
+        for key_, atoms_ in by_res.items():
+            if key_ in named:
+                continue
+            leaked = sorted({k_ for d in atoms_ for k_ in ('mutation', 'modification') if d.get(k_)})
+            if leaked:
+                return ('repair/marks-on-unnamed-residue', {'residue': list(key_), 'resname': atoms_[0].get('resname'), 'marks': leaked,
+                                                            'values': [repr(atoms_[0].get(k_)) for k_ in leaked]})
         for (mmi, ri), mk in marks.items():
             if mmi != mi:
                 continue
